@@ -1,0 +1,15 @@
+//go:build !verif
+// +build !verif
+
+// Package verifhook holds test-harness hook points. Without the build tag "verif" every
+// function is an empty, inlineable no-op.
+package verifhook
+
+// Yield marks an atomic-step boundary of a lock protocol.
+func Yield(point string) {}
+
+// AsyncStart / AsyncDone bracket background work a harness may want to join.
+func AsyncStart() {}
+
+// AsyncDone see AsyncStart.
+func AsyncDone() {}
